@@ -29,7 +29,7 @@ na = [{"property_id": pid, "reason": NOT_YET.get(pid, "check not built yet in th
       for pid in ids if pid not in CHECKS]
 m = {
     "version": 1,
-    "setup_cmd": "cd lean && lake build",
+    "setup_cmd": "./tools/setup.py",
     "hooks": {
         "guard": "QMI_VERIF",
         "enable": "QMI_VERIF=1 is set by ./check for the harness only; no hook commits exist in /repo (instrumentation is injected from outside by wrapping module attributes)",
